@@ -82,7 +82,7 @@ def enter_order(ctx: Ctx, chk) -> None:
 
         # tests the step really depends on (one branch of the test cannot reach it), not merely earlier tests
         tests = [t for t in g.nodes if t.kind == "test" and g.dominates(t, n) and branch_polarity(g, t, [n]) is not None]
-        if any(norm(t.ast) not in ("self.persistence", "self.persistence is not None") for t in tests):
+        if any(norm(t.ast) not in PERS_POS + PERS_NEG for t in tests):
             ok = False
     if ok:
         chk.ok(rule, key, "conditional only on a configured persistence", f.where, sample=False)
@@ -98,15 +98,19 @@ def _awaited(ctx: Ctx, node, func_txt: str) -> bool:
     return False
 
 
+PERS_POS = ("self.persistence", "self.persistence is not None")
+PERS_NEG = ("not self.persistence", "self.persistence is None")
+
+
 def _is_persistence_test(t) -> bool:
-    return t.kind == "test" and norm(t.ast) in ("self.persistence", "self.persistence is not None")
+    return t.kind == "test" and norm(t.ast) in PERS_POS + PERS_NEG
 
 
 def _succ_feasible(n, configured: bool = True):
     """Successors, skipping the `persistence not configured` branch."""
     out = []
     for s, lab in n.succ:
-        if configured and _is_persistence_test(n) and lab == "f":
+        if configured and _is_persistence_test(n) and lab == ("f" if norm(n.ast) in PERS_POS else "t"):
             continue
         out.append((s, lab))
     return out
